@@ -367,6 +367,12 @@ func c16check(sc c16scn, ref []c16resp) func(x *mcrt.Exec) (string, string, stri
 					cls = append(cls, "timeout-before-self")
 					break
 				}
+				if strings.Contains(sc.ops, "C") && r.status == 408 && r.body == "LATE-TMO" {
+					// the handler has not returned yet when it calls TimeoutError a second time: the last call before
+					// returning wins (pinned by the repository's TestServerTimeoutError)
+					cls = append(cls, "self-second-call")
+					break
+				}
 				if r.status != 408 || r.body != "SELF" || late {
 					if late {
 						return strings.Join(cls, ","), "write-after-own-timeouterror-reaches-response", fmt.Sprintf("response %d (%s) after the handler's own TimeoutError(\"SELF\") is %q; %s", i, rq.path, r.raw, ctxt())
@@ -430,10 +436,10 @@ func TestVerif_C16(t *testing.T) {
 		{size: 'M', name: "conc2/T1s/gate/ops-EB/s,f,f", conc: 2, T: sec, code: 408, ops: "EB", reqs: []c16req{G("/s1"), G("/f2"), G("/f3")}},
 		{size: 'M', name: "conc2/T1s/gate/ops-DA/post-s,f", conc: 2, T: sec, code: 408, ops: "DA", reqs: []c16req{P("/s1", "abcd"), G("/f2")}},
 		{size: 'M', name: "conc2/T1s/gate/ops-DA/stream/post-s,f", conc: 2, T: sec, code: 408, ops: "DA", stream: true, reqs: []c16req{P("/s1", "abcd"), G("/f2")}},
-		{size: 'M', name: "conc2/T1s/d1s/ops-A/s,f", conc: 2, T: sec, d: sec, code: 408, ops: "A", reqs: []c16req{G("/s1"), G("/f2")}},
+		{name: "conc2/T1s/d1s/ops-A/s,f", conc: 2, T: sec, d: sec, code: 408, ops: "A", reqs: []c16req{G("/s1"), G("/f2")}},
 		{name: "conc2/T2s/d1s/ops-A/s,f", conc: 2, T: 2 * sec, d: sec, code: 408, ops: "A", reqs: []c16req{G("/s1"), G("/f2")}},
-		{size: 'M', name: "conc2/T1s/self/ops-AB/t,f", conc: 2, T: sec, code: 408, ops: "AB", reqs: []c16req{G("/t1"), G("/f2")}},
-		{size: 'M', name: "conc1/T1s/d2s/ops-A/s,f", conc: 1, T: sec, d: 2 * sec, code: 408, ops: "A", reqs: []c16req{G("/s1"), G("/f2")}},
+		{name: "conc2/T1s/self/ops-AB/t,f", conc: 2, T: sec, code: 408, ops: "AB", reqs: []c16req{G("/t1"), G("/f2")}},
+		{name: "conc1/T1s/d2s/ops-A/s,f", conc: 1, T: sec, d: 2 * sec, code: 408, ops: "A", reqs: []c16req{G("/s1"), G("/f2")}},
 		{size: 'M', name: "conc1/T1s/gate/ops-A/s,f,f", conc: 1, T: sec, code: 408, ops: "A", reqs: []c16req{G("/s1"), G("/f2"), G("/f3")}},
 		{size: 'M', name: "conc2/T1s/gate/ops-A/s,s,f", conc: 2, T: sec, code: 408, ops: "A", reqs: []c16req{G("/s1"), G("/s2"), G("/f3")}},
 		{size: 'M', name: "conc2/T1s/gate/ops-A/head-s,f", conc: 2, T: sec, code: 408, ops: "A", reqs: []c16req{{"HEAD", "/s1", ""}, G("/f2")}},
